@@ -38,9 +38,18 @@ Prim(n, args) ==
                      THEN POk(IF args[1].xs = <<>> THEN NilV ELSE args[1].xs[Len(args[1].xs)]) ELSE PErr
     [] n = "conj" -> IF Len(args) = 2 /\ args[1].ty = "vec" THEN POk(VecV(Append(args[1].xs, args[2]))) ELSE PErr
 
+(* calling a function of several arities: the arguments as the selected arity's parameters see them *)
+SeqV(xs) == [ty |-> "seq", xs |-> xs]
+PackArgs(nfix, variadic, args) ==
+  IF ~variadic THEN args
+  ELSE SubSeq(args, 1, nfix) \o << IF Len(args) = nfix THEN NilV ELSE SeqV(SubSeq(args, nfix + 1, Len(args))) >>
+(* class of the arity error: a fn with one arity is a plain Python function (TypeError), a fn with several *)
+(* arities dispatches on the argument count itself (RuntimeException)                                       *)
+ArityError(narities) == ExcV(IF narities = 1 THEN "TypeError" ELSE "RuntimeException")
+
 (* projection of a result to what can be observed from outside *)
 RECURSIVE Proj(_)
-Proj(v) == CASE v.ty \in {"clo", "bi", "pyfn"} -> [ty |-> "fn"]
-             [] v.ty = "vec" -> [ty |-> "vec", xs |-> [i \in 1..Len(v.xs) |-> Proj(v.xs[i])]]
+Proj(v) == CASE v.ty \in {"clo", "bi", "pyfn", "mclo", "pymfn"} -> [ty |-> "fn"]
+             [] v.ty \in {"vec", "seq"} -> [ty |-> v.ty, xs |-> [i \in 1..Len(v.xs) |-> Proj(v.xs[i])]]
              [] OTHER -> v
 ===================================================================================
